@@ -143,6 +143,7 @@ impl varlink::Interface for ScriptIface {
                 ))?,
                 "e0" => call.reply_struct(Reply::error(format!("{}.Failed", self.name), None))?,
                 "u" => call.to_upgraded(),
+                "z" => std::thread::sleep(Duration::from_millis(40)),
                 "x" => {
                     return Err(varlink::context!(varlink::ErrorKind::Generic));
                 }
